@@ -55,9 +55,9 @@ def _opts(draw, fn, names, has_layer, src=None):
     if F.chance(draw, 1, 4):
         o["useProductionNames"] = draw(st.booleans())
     if F.chance(draw, 1, 4):
-        o["featureWriters"] = draw(st.sampled_from([[], ["KernFeatureWriter"], ["MarkFeatureWriter", "..."], ["GdefFeatureWriter", "CursFeatureWriter"]]))
+        o["featureWriters"] = draw(st.sampled_from([[], ["KernFeatureWriter"], ["MarkFeatureWriter", "..."], ["...", "CursFeatureWriter"], ["GdefFeatureWriter", "CursFeatureWriter"]]))
     if F.chance(draw, 1, 4):
-        o["filters"] = draw(st.sampled_from([["..."], ["DecomposeTransformedComponentsFilter", "..."], ["PropagateAnchorsFilter:pre", "..."], ["TransformationsFilter:OffsetX=7", "..."], ["SortContoursFilter"]]))
+        o["filters"] = draw(st.sampled_from([["..."], ["DecomposeTransformedComponentsFilter", "..."], ["PropagateAnchorsFilter:pre", "..."], ["TransformationsFilter:OffsetX=7", "..."], ["SortContoursFilter"], ["CubicToQuadraticFilter:rememberCurveType=1", "..."]]))
     if F.chance(draw, 1, 5):
         o["debugFeatureFile"] = True
     if fn in ("compileTTF", "compileOTF") and has_layer and F.chance(draw, 1, 5):
